@@ -400,6 +400,10 @@ func genSignedStructs(g *G, count int) {
 		if forgedOther {
 			id, tr, forge = g.newIdentity([]int{1, 1, 7, 7}[i-12], 4, false, nil), g.newSigner(7), []string{"self", "other", "zero-expires", "zero-expires"}[i-12]
 		}
+		transientRound := i >= 8 && i < 12 // a genuine offline block of every transient type (see LeaseSet2 above)
+		if transientRound {
+			id, tr, forge = g.newIdentity(7, 4, false, nil), g.newSigner([]int{0, 2, 1, 11}[i-8]), ""
+		}
 		flags := r.pick(0, 0, 2)
 		sg = id.sg
 		mb := cat(id.bytes, u32(g.ts()), u16(r.pick(0, 600, 65535)))
@@ -427,7 +431,7 @@ func genSignedStructs(g *G, count int) {
 			b, tag := g.maybeMutate(c.bytes, 0.15)
 			g.gen += tag
 			g.emit("readMeta", hx(b))
-			g.emitExact("readMeta", c.tag, tag, b, forced || forgedOther)
+			g.emitExact("readMeta", c.tag, tag, b, forced || forgedOther || transientRound)
 		}
 		// EncryptedLeaseSet (blinded key = a key the harness owns)
 		bl := g.newSigner(r.pick(7, 11, 11, 1))
@@ -441,6 +445,9 @@ func genSignedStructs(g *G, count int) {
 		}
 		if forgedOther {
 			bl, tr, forge = g.newSigner([]int{1, 1, 7, 11}[i-12]), g.newSigner(7), []string{"self", "other", "zero-expires", "zero-expires"}[i-12]
+		}
+		if transientRound {
+			bl, tr, forge = g.newSigner(7), g.newSigner([]int{0, 2, 1, 11}[i-8]), ""
 		}
 		sg = bl
 		eexp := r.pick(1, 600, 65535, 0)
@@ -468,7 +475,7 @@ func genSignedStructs(g *G, count int) {
 			b, tag := g.maybeMutate(c.bytes, 0.15)
 			g.gen += tag
 			g.emit("readELS", hx(b))
-			g.emitExact("readELS", c.tag, tag, b, forced || forgedOther)
+			g.emitExact("readELS", c.tag, tag, b, forced || forgedOther || transientRound)
 		}
 		// LeaseSet (type 1): destination, ElGamal key, revocation key, leases, signature by the destination key
 		id = g.pickIdentity(false)
